@@ -20,6 +20,7 @@ GS = %(GS)r
 GL = %(GL)r
 Y = %(Y)r
 H = %(H)r
+d0 = %(d0)r
 
 """
 
